@@ -210,9 +210,20 @@ pub struct Scenario {
     /// try a short flush while the plugs are still unanswered: it must not report success
     pub early_flush: bool,
     pub ending: Ending,
+    /// HTTP wires only: bit i flips signal i's encoding (JSON <-> protobuf) relative to `wire`, so one emitter carries
+    /// signals in DIFFERENT encodings ("regardless of ... encoding" per signal, with the shared resource)
+    #[serde(default)]
+    pub flip_encoding: u8,
 }
 
 impl Scenario {
+    pub fn json(&self, s: Signal) -> bool {
+        match self.wire {
+            Wire::Grpc => false,
+            w => (w == Wire::HttpJson) != (self.flip_encoding >> s.index() & 1 == 1),
+        }
+    }
+
     pub fn configured(&self) -> Vec<Signal> {
         Signal::ALL.into_iter().filter(|s| self.streams[s.index()].is_some()).collect()
     }
@@ -298,7 +309,7 @@ fn build(c: &Collector, sc: &Scenario) -> emit_otlp::Otlp {
             }
         }
         .allow_compression(sc.gzip);
-        let json = sc.wire == Wire::HttpJson;
+        let json = sc.json(s);
         b = match s {
             Signal::Logs => b.logs(if json { emit_otlp::logs_json(t) } else { emit_otlp::logs_proto(t) }),
             Signal::Traces => b.traces(if json { emit_otlp::traces_json(t) } else { emit_otlp::traces_proto(t) }),
@@ -463,6 +474,7 @@ fn config_only(wire: Wire, gzip: bool, signals: [bool; 3]) -> Scenario {
         outage: None,
         early_flush: false,
         ending: Ending::Flush,
+        flip_encoding: 0,
     }
 }
 
@@ -741,6 +753,11 @@ pub fn judge(sc: &Scenario, obs: &Observed, cx: &mut Cx) -> Result<Result<(), St
         Wire::Grpc => "transport:grpc",
     });
     cx.class(if sc.gzip { "gzip:on" } else { "gzip:off" });
+    {
+        let conf = sc.configured();
+        let mixed = conf.iter().any(|s| sc.json(*s)) && conf.iter().any(|s| !sc.json(*s));
+        cx.class_if(mixed, "encodings:signals-of-one-emitter-in-different-encodings");
+    }
     cx.class(&format!("signals:{}", sc.configured().len()));
     cx.class(match sc.ending {
         Ending::Flush => "ending:flush",
